@@ -96,7 +96,7 @@ func (h *Hist) Enter(group string, sub int, kind string) {
 		if h.occ[i].group == group {
 			found = true
 			if h.occ[i].n > 0 && group != "" {
-				h.Viol = append(h.Viol, &Violation{Property: "C01", Class: "group-overlap", Signature: kind,
+				h.Viol = append(h.Viol, &Violation{Property: "C01", Class: "group-overlap", Signature: "",
 					Step: h.Sim.Step(), Detail: fmt.Sprintf("callback %d (%s) of group %q started while callback %d of the same group is executing", sub, kind, group, h.occ[i].sub)})
 			}
 			h.occ[i].n++
